@@ -1921,35 +1921,45 @@ def replace_pad_by_hw_pad(op: Operation, arch, nng) -> Operation:
 
     return op
 
-# If the op pad channel and batch at the same time, we will split to two pad ops
-# one for channel and the other for batch, and then will convert pad to concat
+# convert_pad_to_concat pads one dimension only (the first or the last one). If the op pads other dimensions at the
+# same time, we will split to two pad ops: one for that dimension and the other (sub) for the remaining dimensions
 def split_pad_to_sub_pad(op, arch, nng):
     if not op.type == Op.Pad or not op.run_on_npu:
         return op
 
     inp, pad_tensor = op.inputs
-    if len(pad_tensor.values) == 3 or sum(pad_tensor.values[-1, :]) == 0 or sum(pad_tensor.values[0, :]) == 0:
+    # The batch is padded last: the operations of the other paddings then all have batch size 1
+    if sum(pad_tensor.values[0, :]) != 0:
+        axis = 0
+    elif sum(pad_tensor.values[-1, :]) != 0:
+        axis = -1
+    else:
+        return op
+    if np.count_nonzero(np.delete(pad_tensor.values, axis, axis=0)) == 0:
         return op
 
     pad_sub = op.clone("_sub")
 
     dtype = op.outputs[0].dtype
     out_shape = op.outputs[0].shape.copy()
-    out_shape[0] -= sum(pad_tensor.values[0])
+    out_shape[axis] -= sum(pad_tensor.values[axis])
     pad_sub_out = Tensor(out_shape, dtype, f"{op.outputs[0].name}_sub")
     pad_sub_out.quantization = op.outputs[0].quantization
 
-    pad_value = pad_tensor.values.copy()
+    pad_value = np.zeros_like(pad_tensor.values)
+    pad_value[axis] = pad_tensor.values[axis]
+    pad_value2 = pad_tensor.values.copy()
+    pad_value2[axis] = [0, 0]
     pad_shape = list(pad_tensor.shape)
     pad_dtype = pad_tensor.dtype
     quantization = pad_tensor.quantization
+    pad_tensor1 = create_const_tensor(
+            f"{pad_tensor.name}_main", pad_shape, pad_dtype, pad_value, quantization=quantization)
     pad_tensor2 = create_const_tensor(
-            f"{pad_tensor.name}_sub", pad_shape, pad_dtype, pad_value, quantization=quantization)
-
-    pad_tensor.values[3] = [0, 0]
-    pad_tensor2.values[0] = [0, 0]
+            f"{pad_tensor.name}_sub", pad_shape, pad_dtype, pad_value2, quantization=quantization)
 
     op.set_input_tensor(pad_sub_out, 0)
+    op.set_input_tensor(pad_tensor1, 1)
     pad_sub.set_output_tensor(pad_sub_out)
     pad_sub.set_input_tensor(pad_tensor2, 1)
 
